@@ -69,7 +69,7 @@ def main():
             continue
         ref, what = TEXT[pid]
         nq = len([h for h in kh if h.tier == "quick"]) + len([o for o in mo if o.tier == "quick"])
-        nt = len(kh) + len(mo)
+        nt = len([h for h in kh if h.tier != "extra"]) + len([o for o in mo if o.tier != "extra"])
         engines = []
         if kh:
             engines.append("Kani/CBMC bounded model checking of the compiled crate")
